@@ -61,6 +61,18 @@ macro_rules! thread_local {
         $(#[$a])* $v static $n: ::tokio::sim::worker_local::WorkerLocal<$t> = ::tokio::sim::worker_local::WorkerLocal::new(|| $init);
     };
 }
+
+// `println!` / `print!` in the server's modules write to the process's standard output, which for
+// this server IS the protocol stream: in the simulation the bytes land in the pipe the client reads.
+#[allow(unused_macros)]
+macro_rules! println {
+    () => { ::tokio::sim::process_stdout_write(b"\n") };
+    ($($a:tt)*) => { ::tokio::sim::process_stdout_write(format!("{}\n", format_args!($($a)*)).as_bytes()) };
+}
+#[allow(unused_macros)]
+macro_rules! print {
+    ($($a:tt)*) => { ::tokio::sim::process_stdout_write(format!($($a)*).as_bytes()) };
+}
 '''
 print('\n'.join(sum(first,[])))
 print(macro)
